@@ -26,12 +26,12 @@ pub struct Choice {
 }
 
 pub fn strategy() -> BoxedStrategy<Choice> {
-  let stmt = (0u8..10, 0u8..8, 0u8..8);
+  let stmt = (0u8..13, 0u8..8, 0u8..8);
   let file = (prop::collection::vec(stmt, 0..8), 0u8..8);
   (
     prop::collection::vec(file, 1..12),
     prop::option::weighted(0.35, 0u8..5),
-    prop::collection::vec((0u8..7, 0u8..26), 1..=4),
+    prop::collection::vec((0u8..8, 0u8..26), 1..=5),
     1u8..=3,
   )
     .prop_map(|(files, run_mode, rules, repeat)| Choice {
@@ -57,7 +57,11 @@ fn js_stmt(k: u8, a: u8, b: u8) -> String {
     6 => format!("if ({x}) {{\n  foo({y});\n}}"),
     7 => "".to_string(),
     8 => format!("baz({y});"),
-    _ => format!("foo(\n  {x},\n  {y}\n);"),
+    9 => format!("foo(\n  {x},\n  {y}\n);"),
+    // suppression comments: used ones and unused ones (a project scan proposes to delete those)
+    10 => "// ast-grep-ignore".to_string(),
+    11 => "// ast-grep-ignore: zz-none".to_string(),
+    _ => format!("foo({x}); // ast-grep-ignore"),
   }
 }
 
@@ -70,6 +74,7 @@ fn rule_doc(kind: u8, id: &str) -> String {
     3 => format!("id: {id}\nlanguage: JavaScript\nrule:\n  kind: identifier\n  regex: ^a$\n  inside: {{kind: arguments}}\nfix:\n  template: ''\n  expandEnd: {{regex: '^,$'}}\n"),
     4 => format!("id: {id}\nlanguage: JavaScript\nrule:\n  kind: expression_statement\n  has: {{pattern: 'baz($$$)'}}\nfix: ''\n"),
     5 => format!("id: {id}\nlanguage: Html\nrule:\n  kind: attribute_value\nfix: changed\n"),
+    6 => format!("id: {id}\nlanguage: Css\nrule:\n  kind: plain_value\nfix: blue\n"),
     _ => format!("id: {id}\nlanguage: JavaScript\nseverity: error\nmessage: no fix here\nrule:\n  pattern: bar($$$)\n"),
   }
 }
@@ -82,7 +87,7 @@ pub fn interpret(ch: &Choice, _st: &mut Stats) -> Option<Case> {
     match kind {
       0 => {
         // an HTML host with a script (and an attribute for the host-language rule)
-        let html = format!("<div class=\"box\" id=x>\n<p title=\"t\">text</p>\n<script>\n{body}\n</script>\n<p class=\"c\">more</p>\n</div>\n");
+        let html = format!("<div class=\"box\" id=x>\n<style>\n.a {{ color: red; margin: auto }}\n</style>\n<p title=\"t\">text</p>\n<script>\n{body}\n</script>\n<p class=\"c\">more</p>\n</div>\n");
         files.push((format!("{dir}page{i}.html"), html));
       }
       1 => files.push((format!("{dir}notes{i}.txt"), format!("foo(1); // not a source file\n{body}\n"))),
